@@ -12,7 +12,7 @@ RULE = ('Hypothesis draws a frame geometry (sizes, df, dt, fch1, orientation, co
         'array, list, python float, python int}, time profile in {constant, sine, periodic gaussian (seeded), '
         'custom, array, list, float, int}, frequency profile in {box, gaussian, multiple gaussian, lorentzian, '
         'voigt, sinc2 (crossing|fwhm, trunc on|off), custom}, bandpass in {None, constant, custom, array, float}, '
-        'each integrate_* flag, sub-sample counts 1..7, smearing with 1..9 sub-steps, and a bounding range kind '
+        'each integrate_* flag, sub-sample counts 1..7 (occasionally 100..400), smearing with 1..9 (occasionally 100..400) sub-steps, occasionally float32 frame data or > 2**16 channels, and a bounding range kind '
         '(none/inside/clipped low/clipped high/wholly below/wholly above/reversed). The returned array is '
         'compared pixel by pixel with an independent evaluator (own closed forms, left-Riemann sub-sample means, '
         'smearing = mean over n evenly spaced centres between path(t_i) and path(t_i+1)). Wrong-length arrays '
@@ -25,7 +25,7 @@ ASSUMPTIONS = ['tolerance per pixel = amplitude * (Lipschitz(profile) * 64 ulp(f
                'with a bounding range the two boundary columns may be included or not']
 REQUIRED_CLASSES = ['asc', 'desc', 'path=array', 'path=int', 'path=rfi', 't=pgauss', 'f=voigt', 'f=sinc2',
                     'smear', 'smear+array_path', 'int_f', 'int_t', 'int_path', 'range=below', 'range=above',
-                    'range=inside', 'flags+range', 'negative_facet']
+                    'range=inside', 'flags+range', 'negative_facet', 'special=wide', 'special=many_subsamples', 'special=float32', 'second_injection_on_moved_axis']
 
 
 @st.composite
@@ -33,9 +33,30 @@ def strategy_(draw, tier):
     g = draw(gen.geometry(max_fchans=256 if tier == 'thorough' else 48, max_tchans=12))
     sig = dict(path=draw(S.path_strategy()), t=draw(S.t_strategy()), f=draw(S.f_strategy()), bp=draw(S.bp_strategy()))
     opts = draw(S.opts_strategy())
+    special = draw(st.sampled_from([None] * 10 + ['wide', 'many_subsamples', 'many_subsamples', 'float32', 'float32']))
+    if special == 'wide':
+        # beyond 2**16 channels (real products are 2**20 wide); keep the work small otherwise
+        g['fchans'] = draw(st.sampled_from([65536 + 500, 70001, 2 ** 17 + 3]))
+        g['tchans'] = draw(st.integers(1, 2))
+        g['fch1'] = min(max(g['fch1'], 4.0 * g['fchans'] * g['df'] + 1.0), g['df'] * 2.0 ** 40)
+        opts.update(t_subsamples=min(opts['t_subsamples'], 2), f_subsamples=min(opts['f_subsamples'], 2),
+                    smearing_subsamples=min(opts['smearing_subsamples'], 2))
+    elif special == 'many_subsamples':
+        # sub-sample counts are unbounded in the API (default 10): hundreds of copies on a small frame
+        g['fchans'] = min(g['fchans'], 12)
+        g['tchans'] = min(g['tchans'], 4)
+        which = draw(st.sampled_from(['smear', 't', 'f']))
+        big = draw(st.integers(100, 400))
+        if which == 'smear':
+            opts.update(doppler_smearing=True, smearing_subsamples=big)
+        elif which == 't':
+            opts.update(integrate_t_profile=True, integrate_path=True, t_subsamples=big)
+        else:
+            opts.update(integrate_f_profile=True, f_subsamples=big)
     rng = draw(S.range_strategy())
     neg = draw(st.sampled_from([None] * 9 + ['path_len', 't_len', 'bp_len', 'path_type', 't_type', 'bp_type']))
-    return dict(g=g, sig=sig, opts=opts, range=rng, neg=neg)
+    return dict(g=g, sig=sig, opts=opts, range=rng, neg=neg, special=special,
+                reshift=draw(st.sampled_from([None, None, None, 3.5, 1000.0, -2.0])))
 
 
 def strategy(tier):
@@ -57,9 +78,17 @@ def run_case(case, ctx):
     stg = core.import_setigen()
     obs = core.Obs()
     g, sg, opts, rk = case['g'], case['sig'], dict(case['opts']), case['range']
-    ok, fr = core.call(obs, 'construct', gen.make_frame, stg, g)
+    special = case.get('special')
+    if special == 'float32':
+        # frames holding single-precision data (as loaded from files): the returned signal is still the exact product
+        ok, fr = core.call(obs, 'construct', gen.make_frame, stg, dict(g, route='data'),
+                           np.zeros((g['tchans'], g['fchans']), dtype=np.float32))
+    else:
+        ok, fr = core.call(obs, 'construct', gen.make_frame, stg, g)
     if not ok:
         return obs
+    if special:
+        obs.cls('special=' + special)
     ax = S.Axes(fr.fs, fr.ts, fr.df, fr.dt)
     smear = opts['doppler_smearing']
     if sg['bp']['kind'] == 'array' and (opts['integrate_f_profile'] or rk['kind'] != 'none'):
@@ -154,8 +183,22 @@ def run_case(case, ctx):
         fl = '+'.join(flags) or 'plain'
         obs.fail(f'value:{fl}', f'pixel ({i},{j}) got {got[i, j]!r} expected {exp[i, j]!r} tol {float(tol[i, j]):.3g}; '
                  f'{int(bad.sum())} of {bad.size} pixels; path={sg["path"]["kind"]} t={sg["t"]["kind"]} f={sg["f"]["kind"]} bp={sg["bp"]["kind"]}')
-    if not np.array_equal(fr.data, got):
-        obs.fail('frame_data_not_signal', '')
+    if not np.array_equal(fr.data, got.astype(fr.data.dtype)):
+        obs.fail('frame_data_not_signal', str(fr.data.dtype))
+    # t_i is the frame's OWN time axis: after the user moves it, a second injection must follow the new axis
+    if case.get('reshift') is not None and rng is None and sg['path']['kind'] != 'array' and sg['t']['kind'] != 'array' and not obs.violations:
+        obs.cls('second_injection_on_moved_axis')
+        fr.ts = np.asarray(fr.ts) + case['reshift'] * ax.dt
+        before2 = fr.data.copy()
+        ok, got2 = core.call(obs, 'add_signal[second, moved ts]', fr.add_signal, S.stg_path(stg, ax, sg['path'], smear),
+                             S.stg_t(stg, ax, sg['t']), S.stg_f(stg, ax, sg['f']), S.stg_bp(stg, ax, sg['bp']), **kw)
+        if ok:
+            exp2, tol2, excl2 = S.reference(stg, ax, sg, opts, ts_eval=np.asarray(fr.ts))
+            bad2 = (np.abs(np.asarray(got2) - exp2) > tol2) & ~excl2
+            if np.any(bad2):
+                i, j = map(int, np.argwhere(bad2)[0])
+                obs.fail(f'value_after_axis_moved:{"+".join(flags) or "plain"}', f'pixel ({i},{j}) got {np.asarray(got2)[i, j]!r} expected {exp2[i, j]!r} '
+                         f'(ts moved by {case["reshift"]} steps); path={sg["path"]["kind"]} t={sg["t"]["kind"]}')
     amp = S.amplitude_bound(ax, sg)
     visible = bool(np.any(np.abs(exp[:, cmp_cols]) > 1e-12 * amp))
     nonconst = (sg['path']['kind'] not in ('float', 'int') or sg['t']['kind'] not in ('constant', 'float', 'int')
